@@ -56,6 +56,35 @@ func vpH_C03_Relationship()          { vpC03Cell(vpTypeIndex("Relationship")) }
 func vpH_C03_Tombstone()             { vpC03Cell(vpTypeIndex("Tombstone")) }
 func vpH_C03_Link()                  { vpC03Cell(vpTypeIndex("Link")) }
 
+// lists with a repeated member come back member for member (the gob form promises nothing but the
+// unset/empty normal form)
+func vpH_C03_repeated_members() {
+	ti := vpChoice(len(vpTypeNames))
+	fields := vpFieldsOf(ti)
+	f := vpChoice(len(fields))
+	if fields[f].Kind != "Items" {
+		vpReach("end")
+		return
+	}
+	shape := 4 + vpChoice(2)
+	x := vpNew(ti)
+	vpSetField(x, 0, 0, 'i')
+	vpSetField(x, f, shape, 'a')
+	cell := vpTypeNames[ti] + "." + fields[f].Name + "/" + string([]byte{'0' + byte(shape)})
+	b, err := GobEncode(x)
+	vpAssert("repeated/encode/"+cell, err == nil && len(b) > 0)
+	if len(b) == 0 {
+		return
+	}
+	y, err := GobDecode(b)
+	vpAssert("repeated/decode/"+cell, err == nil && y != nil)
+	if y == nil {
+		return
+	}
+	vpDiffItems("repeated/roundtrip/"+cell, x, y, nil)
+	vpReach("end")
+}
+
 // instants keep nanoseconds and denote the same moment; negative numbers and durations survive
 func vpH_C03_special() {
 	o := &Object{ID: vpMkIRI('i'), Type: NoteType}
